@@ -122,7 +122,12 @@ LabAsym(v, n, cli) ==
 \* many concurrent runs, many times: every run installs its own capture filter (thorough tier: the attach path of the real sockets)
 LabRepeat(v, n, k) ==
     [Lab(v, n, "open", {}, 1, 8, TRUE) EXCEPT !.id = @ \o "/repeat" \o ToString(k), !.label = @ \o "/eight_concurrent_runs_repeated", !.req.e2e = 0] @@ [noise |-> "", reject |-> 0, repeat |-> k]
-MoreC13 == { LabAsym(v, 2, c) : v \in {<<"icmp", "">>, <<"udp", "">>, <<"tcp", "syn">>}, c \in BOOLEAN }
+\* the tracer is RENUMBERED (10.100.0.1 -> 10.100.0.3) between two identical requests served by one process: the second answer is
+\* that of a fresh process (nothing about the old address survives)
+LabRenumber(v, n) ==
+    [Lab(v, n, IF v[1] = "tcp" THEN "open" ELSE "closed", {}, 1, 1, FALSE) EXCEPT !.id = @ \o "/renumbered", !.label = @ \o "/tracer_renumbered_between_requests"]
+    @@ [noise |-> "", reject |-> 0, renumber |-> TRUE]
+MoreC13 == { LabRenumber(v, 2) : v \in {<<"icmp", "">>, <<"udp", "">>, <<"tcp", "syn">>} } \cup { LabAsym(v, 2, c) : v \in {<<"icmp", "">>, <<"udp", "">>, <<"tcp", "syn">>}, c \in BOOLEAN }
            \cup (IF IOEnv.VT_TIER = "quick" THEN {} ELSE { LabRepeat(<<"tcp", "syn">>, 1, 40) })
            \cup { LabReject(n, k, c) : n \in {2, MaxN}, k \in {1, 2}, c \in BOOLEAN } \cup { LabNoise(v, 2, c) : v \in {<<"icmp", "">>, <<"udp", "">>, <<"tcp", "syn">>}, c \in BOOLEAN }
 
